@@ -152,64 +152,67 @@ func vGenAnyTransform(ttype uint8, form int) *message.Transform {
 // Params: kind (as above), form, viaWire.
 func HDecodeSymbolic() {
 	kind, form, wire := vr.Param(0), vr.Param(1), vr.Param(2)
-	t := vGenAnyTransform(vTypeOf[kind], form)
+	src := vGenAnyTransform(vTypeOf[kind], form)
+	t := src
 	if wire == 1 {
-		w, ok := vWire(t)
+		w, ok := vWire(src)
 		if !ok {
 			vr.Cover("c11.symbolic.not-encodable")
 			return
 		}
 		t = w
 	}
-	keyAttr := t.AttributePresent && t.AttributeFormat == message.AttributeFormatUseTV && t.AttributeType == 14
+	// what the sender put on the wire decides what may be negotiated: the conditions are evaluated on the
+	// transform as it was built (src), the decode function sees the received one (t)
+	keyAttr := src.AttributePresent && src.AttributeFormat == message.AttributeFormatUseTV && src.AttributeType == 14
 	switch kind {
 	case 0:
 		r := encr.DecodeTransform(t)
 		for i := range vEncrNames {
-			match := vr.All(t.TransformID == vEncrID, keyAttr, t.AttributeValue == vEncrBits[i])
+			match := vr.All(src.TransformID == vEncrID, keyAttr, src.AttributeValue == vEncrBits[i])
 			vr.Assert("c11.mapped-iff-advertised", vr.Implies(match, r == encr.StrToType(vEncrNames[i])))
 		}
-		vr.Assert("c11.nonnil-implies-advertised", vr.Implies(r != nil, vr.All(t.TransformID == vEncrID, keyAttr,
-			vr.Any(t.AttributeValue == 128, t.AttributeValue == 192, t.AttributeValue == 256))))
+		vr.Assert("c11.nonnil-implies-advertised", vr.Implies(r != nil, vr.All(src.TransformID == vEncrID, keyAttr,
+			vr.Any(src.AttributeValue == 128, src.AttributeValue == 192, src.AttributeValue == 256))))
 		if r != nil {
-			vr.Assert("c11.keysize", int(t.AttributeValue) == 8*r.GetKeyLength())
+			vr.Assert("c11.keysize", int(src.AttributeValue) == 8*r.GetKeyLength())
 		}
 	case 1:
 		r := encr.DecodeTransformChildSA(t)
-		vr.Assert("c11.nonnil-implies-advertised", vr.Implies(r != nil, vr.All(t.TransformID == vEncrID, keyAttr,
-			vr.Any(t.AttributeValue == 128, t.AttributeValue == 192, t.AttributeValue == 256))))
+		vr.Assert("c11.nonnil-implies-advertised", vr.Implies(r != nil, vr.All(src.TransformID == vEncrID, keyAttr,
+			vr.Any(src.AttributeValue == 128, src.AttributeValue == 192, src.AttributeValue == 256))))
 		if r != nil {
-			vr.Assert("c11.keysize", int(t.AttributeValue) == 8*r.GetKeyLength())
+			vr.Assert("c11.keysize", int(src.AttributeValue) == 8*r.GetKeyLength())
 		}
 	case 2:
 		r := integ.DecodeTransform(t)
-		vr.Assert("c11.nonnil-implies-advertised", vr.Implies(r != nil, vr.Any(t.TransformID == 1, t.TransformID == 2, t.TransformID == 12)))
+		vr.Assert("c11.nonnil-implies-advertised", vr.Implies(r != nil, vr.Any(src.TransformID == 1, src.TransformID == 2, src.TransformID == 12)))
 		if r != nil {
-			vr.Assert("c11.same-id", r.TransformID() == t.TransformID)
+			vr.Assert("c11.same-id", r.TransformID() == src.TransformID)
 		}
 	case 3:
 		r := integ.DecodeTransformChildSA(t)
-		vr.Assert("c11.nonnil-implies-advertised", vr.Implies(r != nil, vr.Any(t.TransformID == 1, t.TransformID == 2, t.TransformID == 12)))
+		vr.Assert("c11.nonnil-implies-advertised", vr.Implies(r != nil, vr.Any(src.TransformID == 1, src.TransformID == 2, src.TransformID == 12)))
 		if r != nil {
-			vr.Assert("c11.same-id", r.TransformID() == t.TransformID)
+			vr.Assert("c11.same-id", r.TransformID() == src.TransformID)
 		}
 	case 4:
 		r := prf.DecodeTransform(t)
-		vr.Assert("c11.nonnil-implies-advertised", vr.Implies(r != nil, vr.Any(t.TransformID == 1, t.TransformID == 2, t.TransformID == 5)))
+		vr.Assert("c11.nonnil-implies-advertised", vr.Implies(r != nil, vr.Any(src.TransformID == 1, src.TransformID == 2, src.TransformID == 5)))
 		if r != nil {
-			vr.Assert("c11.same-id", r.TransformID() == t.TransformID)
+			vr.Assert("c11.same-id", r.TransformID() == src.TransformID)
 		}
 	case 5:
 		r := dh.DecodeTransform(t)
-		vr.Assert("c11.nonnil-implies-advertised", vr.Implies(r != nil, vr.Any(t.TransformID == 2, t.TransformID == 14)))
+		vr.Assert("c11.nonnil-implies-advertised", vr.Implies(r != nil, vr.Any(src.TransformID == 2, src.TransformID == 14)))
 		if r != nil {
-			vr.Assert("c11.same-id", r.TransformID() == t.TransformID)
+			vr.Assert("c11.same-id", r.TransformID() == src.TransformID)
 		}
 	default:
 		r, err := esn.DecodeTransform(t)
-		vr.Assert("c11.nonnil-implies-advertised", vr.Implies(err == nil, vr.Any(t.TransformID == 0, t.TransformID == 1)))
+		vr.Assert("c11.nonnil-implies-advertised", vr.Implies(err == nil, vr.Any(src.TransformID == 0, src.TransformID == 1)))
 		if err == nil {
-			vr.Assert("c11.same-id", r.TransformID() == t.TransformID)
+			vr.Assert("c11.same-id", r.TransformID() == src.TransformID)
 		}
 	}
 }
